@@ -176,7 +176,33 @@ def gen_program(rng, dim, opts=None):
             if b.sp[cur] >= 4:
                 m = nn.AvgPool1d(2) if dim == 1 else (nn.MaxPool2d(2) if rng.random() < .5 else nn.AvgPool2d(2))
                 cur = b.add(('pool', cur, m), b.ch[cur], b.sp[cur] // 2)
-    if o.get('reuse') and not b.taint[cur] and b.sp[cur] >= 4:
+    if o.get('reuse') and not b.taint[cur] and (b.sp[cur] < 4 or rng.random() < .6):
+        # one layer invoked twice on two *different* tensors u, v (their features must be tied: the layer
+        # slices its weights by one input mask), its two outputs joining two residual sums or a concat
+        C = b.ch[cur]
+        resid = rng.random() < .5
+        u = b.conv(cur, cout=C, keep_size=True)
+        v = b.conv(cur, cout=C, keep_size=True)
+        g = b.conv(u, cout=C if resid else None, keep_size=True, k_choices=[1, 3])
+        gnode = g
+        while b.prog[gnode][0] != 'conv':
+            gnode -= 1
+        src2 = v
+        if dim == 1:        # the block is pad + conv (+ BatchNorm): the padding module is applied again too
+            src2 = b.add(('reuse', v, gnode - 1), C, b.sp[v])
+            b.taint[-1] = b.taint[v]
+        g2 = b.add(('reuse', src2, gnode), b.ch[g], b.sp[g])
+        if b.prog[gnode + 1][0] == 'bn':       # the block is conv + BatchNorm: both are applied again
+            g2 = b.add(('reuse', g2, gnode + 1), b.ch[g], b.sp[g])
+        g2 = b.add(('relu', g2), b.ch[g], b.sp[g])
+        if resid:
+            p_ = b.add(('add', g, u), C, b.sp[g])
+            q_ = b.add(('add', v, g2), C, b.sp[g])
+        else:
+            p_, q_ = g, g2
+        cur = b.add(('cat', [p_, q_]), b.ch[p_] + b.ch[q_], b.sp[g])
+        cur = b.conv(cur)
+    elif o.get('reuse') and not b.taint[cur] and b.sp[cur] >= 4:
         # one layer invoked twice per forward, on a tensor and on its pooled version (same producer,
         # hence same mask): per-invocation metrics must charge each call site its own output shape
         g = b.conv(cur, keep_size=True, k_choices=[1, 3])
@@ -186,9 +212,11 @@ def gen_program(rng, dim, opts=None):
         pooled = b.add(('pool', cur, nn.AvgPool1d(2) if dim == 1 else nn.AvgPool2d(2)), b.ch[cur], b.sp[cur] // 2)
         src2 = pooled
         if dim == 1:
-            m = b.prog[gnode][-1]
-            src2 = b.add(('pad', pooled, nn.ConstantPad1d(((m.kernel_size[0] - 1) * m.dilation[0], 0), 0.)), b.ch[cur], b.sp[pooled])
+            src2 = b.add(('reuse', pooled, gnode - 1), b.ch[cur], b.sp[pooled])
+            b.taint[-1] = b.taint[pooled]
         g2 = b.add(('reuse', src2, gnode), b.ch[g], b.sp[pooled])
+        if b.prog[gnode + 1][0] == 'bn':
+            g2 = b.add(('reuse', g2, gnode + 1), b.ch[g], b.sp[pooled])
         g2 = b.add(('relu', g2), b.ch[g], b.sp[pooled])
         # join the two call sites after flattening
         fa = b.add(('flatf', g), b.ch[g] * (b.sp[g] if dim == 1 else b.sp[g] ** 2), 1)
